@@ -56,6 +56,7 @@ type facts struct {
 	genSkeleton      map[string][]string // generator loop -> its tests, calls, continues and returns in source order
 	entryTree        map[string][]string // exported entry point -> "<tree initializer>.<operation>" of every call it makes on a fresh tree
 	initTree         map[string][]string // initializeTree -> its tests, returns and constructor calls in source order
+	pipeCalls        map[string][]string // method of *treePipeline -> the stages it starts and helpers it calls, in source order
 	treeFields       map[string][]string // field of the treeSimple literal -> the factory called and its arguments
 }
 
@@ -63,7 +64,7 @@ func main() {
 	repo := flag.String("repo", "/repo", "repository root")
 	out := flag.String("out", "", "output Lean file")
 	flag.Parse()
-	f := &facts{consts: map[string]string{}, errChanCap: map[string]int{}, pkgVarWrites: map[string][]string{}, tagged: map[string]string{}, exitCodes: map[string]int{}, aliasPairs: map[string]bool{}, entryConfig: map[string]string{}, pipeEmbeds: map[string][]string{}, pipeMethods: map[string][]string{}, workerCalls: map[string][]string{}, treeCalls: map[string][]string{}, ctorReturns: map[string][]string{}, factoryCtors: map[string][]string{}, treeFields: map[string][]string{}, simpleMethods: map[string][]string{}, genSkeleton: map[string][]string{}, entryTree: map[string][]string{}, initTree: map[string][]string{}}
+	f := &facts{consts: map[string]string{}, errChanCap: map[string]int{}, pkgVarWrites: map[string][]string{}, tagged: map[string]string{}, exitCodes: map[string]int{}, aliasPairs: map[string]bool{}, entryConfig: map[string]string{}, pipeEmbeds: map[string][]string{}, pipeMethods: map[string][]string{}, workerCalls: map[string][]string{}, treeCalls: map[string][]string{}, ctorReturns: map[string][]string{}, factoryCtors: map[string][]string{}, treeFields: map[string][]string{}, simpleMethods: map[string][]string{}, genSkeleton: map[string][]string{}, entryTree: map[string][]string{}, initTree: map[string][]string{}, pipeCalls: map[string][]string{}}
 	fset := token.NewFileSet()
 	for _, dir := range []string{*repo, filepath.Join(*repo, "markdown"), filepath.Join(*repo, "cmd", "gtree")} {
 		ents, err := os.ReadDir(dir)
@@ -466,6 +467,30 @@ func (f *facts) scanFunc(fset *token.FileSet, rel string, fd *ast.FuncDecl) {
 			})
 		}
 	}
+	// the same for the massive tree: the stages every operation of *treePipeline starts, in source order, and the
+	// package-level helpers it calls between them
+	if fd.Recv != nil && len(fd.Recv.List) == 1 && strings.TrimPrefix(exprStr(fd.Recv.List[0].Type), "*") == "treePipeline" && len(fd.Recv.List[0].Names) == 1 {
+		rv := fd.Recv.List[0].Names[0].Name
+		ast.Inspect(fd.Body, func(n ast.Node) bool {
+			if ce, ok := n.(*ast.CallExpr); ok {
+				switch fn := ce.Fun.(type) {
+				case *ast.SelectorExpr:
+					if in, ok := fn.X.(*ast.SelectorExpr); ok {
+						if idt, ok := in.X.(*ast.Ident); ok && idt.Name == rv {
+							f.pipeCalls[fd.Name.Name] = append(f.pipeCalls[fd.Name.Name], in.Sel.Name+"."+fn.Sel.Name)
+						}
+					} else if idt, ok := fn.X.(*ast.Ident); ok && idt.Name == rv {
+						f.pipeCalls[fd.Name.Name] = append(f.pipeCalls[fd.Name.Name], "t."+fn.Sel.Name)
+					}
+				case *ast.Ident:
+					if fn.Name == "split" || fn.Name == "newRootGeneratorPipeline" {
+						f.pipeCalls[fd.Name.Name] = append(f.pipeCalls[fd.Name.Name], fn.Name)
+					}
+				}
+			}
+			return true
+		})
+	}
 	if fd.Recv != nil && len(fd.Recv.List) == 1 && strings.TrimPrefix(exprStr(fd.Recv.List[0].Type), "*") == "treeSimple" && len(fd.Recv.List[0].Names) == 1 {
 		rv := fd.Recv.List[0].Names[0].Name
 		ast.Inspect(fd.Body, func(n ast.Node) bool {
@@ -798,6 +823,7 @@ func (f *facts) render() string {
 	}
 	w("/-- operation of *treeSimple ↦ the calls `t.<part>.<method>` it makes, in source order -/\ndef treeSimpleCalls : List (String × List String) := %s\n", ordMap(f.treeCalls))
 	w("/-- constructor of a part of the simple tree ↦ the struct types of the composite literals it returns (→f: it delegates to constructor f) -/\ndef ctorReturns : List (String × List String) := %s\n", ordMap(f.ctorReturns))
+	w("/-- operation of *treePipeline ↦ the stages it starts (`<part>.<method>`), its own helpers (`t.<method>`) and the splitter / generator constructors it calls, in source order -/\ndef treePipelineCalls : List (String × List String) := %s\n", ordMap(f.pipeCalls))
 	w("/-- exported entry point ↦ `<initializer>.<operation>` of every call it makes on a freshly built tree -/\ndef entryTree : List (String × List String) := %s\n", ordMap(f.entryTree))
 	w("/-- tree.go's initializeTree ↦ its tests, returns, assignments and calls in source order -/\ndef initTree : List (String × List String) := %s\n", ordMap(f.initTree))
 	w("/-- row loop of a root generator ↦ its tests, calls, continues and returns in source order -/\ndef genSkeleton : List (String × List String) := %s\n", ordMap(f.genSkeleton))
